@@ -224,11 +224,11 @@ package xmpp
 // the frame assumed of every feature's Negotiate callback (funcfield
 // StreamFeature.Negotiate), proved here for resource binding
 //@   callsite foreign#*
-//@     preserves session.state, session.negotiated, session.features, session.in.d
+//@     preserves session.state, session.negotiated, session.features, session.in.d, start.Attr
 //@   callsite (*Session).TokenReader#1
 //@     preserves session.state, session.negotiated, session.features, session.in.d
 //@   callsite (*Session).TokenWriter#1
-//@     preserves session.state, session.negotiated, session.features, session.in.d
+//@     preserves session.state, session.negotiated, session.features, session.in.d, start.Attr
 //@   ensures[C01,C02,C04] unchanged(session.state) && unchanged(session.negotiated) && unchanged(session.features) && unchanged(session.in.d)
 //@   ghost updated bool = false
 //@   callsite (*Session).UpdateAddr#1
@@ -255,6 +255,8 @@ package xmpp
 //@   callsite (*Session).State#1
 //@     after: st0 = ret0
 //@   ensures[C12] result0 & Ready != 0 && st0 & Received == 0 ==> updated && result2 == nil
+//@   loop 1
+//@     invariant[C12] forall j int :: 0 <= j && j <= rangeindex ==> !unq(start.Attr[j], "id")
 
 // BEGIN enrolment C09 (generated by the safety sweep: every safety obligation of these functions is discharged)
 //@ nopanic [C09] (*Session).Close
